@@ -41,6 +41,7 @@ type RefUse struct {
 	ViaArray  bool   `json:"arr,omitempty"`   // property is array of ref
 	Spelling  string `json:"spelling"`        // plain, dot, dotdot, abs, fileurl, noext, symlink, fragment
 	LocalOnly bool   `json:"local,omitempty"` // same-file fragment ref
+	Combo     string `json:"combo,omitempty"` // "allOf"/"anyOf": the ref is a branch next to a branch holding the cb_ marker
 }
 
 type Link struct {
@@ -221,6 +222,8 @@ type Feat struct {
 	RecCombo                                                               bool // allow reference cycles through allOf/anyOf
 	Shadow                                                                 bool // two files named common.json in two directories
 	ExtShadow                                                              bool // e0f.json and e0f.yaml side by side, referenced without extension
+	Twins                                                                  bool // definition / property names that collide as Go identifiers (foo_bar vs foo-bar, Acct vs acct)
+	SharedDef                                                              bool // several files define a definition literally named "Shared" (identical ref spelling, different targets)
 	PlainMarkers                                                           bool // no allOf/anyOf $ref branches (merged copies would carry markers too); every id is emitted
 	ReqCycle                                                               bool // a recursive $ref property may be required (schema no finite document satisfies)
 }
@@ -251,6 +254,10 @@ type genCtx struct {
 	// point to definitions with a higher index, so that no reference cycle runs
 	// through a combinator (that shape is known finding F-C18-5: it never ends).
 	curDef int
+	// comboOnly restricts drawRef to targets that cannot lead back through a
+	// combinator: local definitions with a higher index, other files only when
+	// cross-file recursion is off.
+	comboOnly bool
 }
 
 var dirsPool = []string{"", "a", "b", "a/sub", "c"}
@@ -285,6 +292,8 @@ func genWorld(t *rapid.T, maxFiles int, recCombo, http, shadows bool) *World {
 		}
 	}
 	feat.ReqCycle = true // only C10 worlds restrict required references
+	feat.SharedDef = rapid.IntRange(0, 99).Draw(t, "f:shareddef") < 35
+	feat.Twins = rapid.IntRange(0, 99).Draw(t, "f:twins") < 25
 	if shadows {
 		feat.PlainMarkers = true
 		feat.ReqCycle = rapid.IntRange(0, 99).Draw(t, "f:reqcycle") < 10
@@ -336,6 +345,25 @@ func genWorld(t *rapid.T, maxFiles int, recCombo, http, shadows bool) *World {
 		f.RootObj = !(feat.TypelessRoot && rapid.IntRange(0, 3).Draw(t, "typeless") == 0)
 		w.Files = append(w.Files, f)
 	}
+	if feat.SharedDef {
+		var elig []*SFile
+		for _, f := range w.Files {
+			uniq := true
+			for _, o := range w.Files {
+				if o != f && o.Pkg == f.Pkg {
+					uniq = false
+				}
+			}
+			if uniq && !(shadows && len(w.Files) < 2) {
+				elig = append(elig, f)
+			}
+		}
+		if len(elig) >= 2 {
+			for _, f := range elig {
+				f.Defs = append(f.Defs, "Shared")
+			}
+		}
+	}
 	if feat.Shadow {
 		if n >= 1 {
 			w.Files[0].Dir = "a"
@@ -345,15 +373,21 @@ func genWorld(t *rapid.T, maxFiles int, recCombo, http, shadows bool) *World {
 		}
 		for i, d := range []string{"a", "b"} {
 			tag := fmt.Sprintf("s%d", i)
-			sf := &SFile{Tag: tag, Dir: d, Base: "common.json", Defs: []string{fmt.Sprintf("S%dDa", i)}}
-			if w.Files[0].ID != "" {
-				sf.ID = "https://example.com/" + tag
-			}
+			// both are called common.json, both have a typed root; their ids map them to
+			// distinct root type names (same output, same package), so that the identical
+			// spelling "./common.json" denotes two different Go types
+			sf := &SFile{Tag: tag, Dir: d, Base: "common.json", RootObj: true, ID: "https://example.com/" + tag,
+				Defs: []string{fmt.Sprintf("S%dDa", i)}}
 			w.Files = append(w.Files, sf)
 		}
 	}
 	if feat.ExtShadow {
-		for _, e := range []struct{ tag, ext string }{{"e0j", ".json"}, {"e0y", ".yaml"}} {
+		cands := []struct{ tag, ext string }{{"e0j", ".json"}, {"e0y", ".yaml"}}
+		if rapid.Bool().Draw(t, "literalnoext") {
+			// a file literally named e0f: the reference "e0f" denotes it before any extension is tried
+			cands = append(cands, struct{ tag, ext string }{"e0n", ""})
+		}
+		for _, e := range cands {
 			sf := &SFile{Tag: e.tag, Dir: "", Base: "e0f" + e.ext, YAML: e.ext == ".yaml", Defs: []string{"E0Da"}}
 			if w.Files[0].ID != "" {
 				sf.ID = "https://example.com/" + e.tag
@@ -363,6 +397,17 @@ func genWorld(t *rapid.T, maxFiles int, recCombo, http, shadows bool) *World {
 	}
 	// options
 	w.Opts = drawOptions(t, w, npkg)
+	if feat.Shadow {
+		out := w.Opts.Output
+		if out == "" {
+			out = "-"
+		}
+		for i := 0; i < 2; i++ {
+			id := fmt.Sprintf("https://example.com/s%d", i)
+			w.Opts.SchemaRoot = append(w.Opts.SchemaRoot, Pair{id, fmt.Sprintf("RootS%d", i)})
+			w.Opts.SchemaOut = append(w.Opts.SchemaOut, Pair{id, out})
+		}
+	}
 	if feat.ExtShadow {
 		w.Opts.ResolveExt = rapid.SampledFrom([][]string{{".json", ".yaml"}, {".yaml", ".json"}, {".yml", ".yaml", ".json"}, {".json", ".yml", ".yaml"}}).Draw(t, "rext2")
 	}
@@ -380,7 +425,12 @@ func genWorld(t *rapid.T, maxFiles int, recCombo, http, shadows bool) *World {
 		}
 	}
 	for _, f := range w.Files {
-		g := &genCtx{t: t, w: w, f: f, feat: feat, curDef: -1}
+		ff := feat
+		if isSpecial(f) {
+			// shadow files are leaves: no references, no combinators, no enums
+			ff.LocalRef, ff.FileRef, ff.AllOf, ff.AnyOf, ff.Enum, ff.Recur = false, false, false, false, false, false
+		}
+		g := &genCtx{t: t, w: w, f: f, feat: ff, curDef: -1}
 		g.genDoc()
 	}
 	if http && w.Files[0].RootObj && rapid.IntRange(0, 3).Draw(t, "http") == 0 {
@@ -504,8 +554,31 @@ func (g *genCtx) genDoc() {
 		xdefs = append(xdefs, name)
 	}
 	_ = xdefs
+	var twinRefs []string
+	if g.feat.Twins && !isSpecial(f) {
+		// names that map to the same Go identifier (and have the same length): which one
+		// gets the plain name and which the _1 suffix must not depend on map order
+		up := strings.ToUpper(f.Tag[:1]) + f.Tag[1:]
+		pairs := [][2]string{{up + "Tw_a", up + "Tw-a"}, {up + "Tc", f.Tag + "tc"}, {up + "Tw.b", up + "Tw b"}}
+		np := rapid.IntRange(1, len(pairs)).Draw(g.t, "ntwins")
+		for i := 0; i < np; i++ {
+			a, b := pairs[i][0], pairs[i][1]
+			defs = append(defs, KV{a, Obj{{"type", "object"}, {"properties", Obj{{"twx", Obj{{"type", "string"}}}}}}})
+			defs = append(defs, KV{b, Obj{{"type", "object"}, {"properties", Obj{{"twy", Obj{{"type", "integer"}}}}}, {"required", []any{"twy"}}}})
+			twinRefs = append(twinRefs, a, b)
+		}
+	}
 	if f.RootObj {
 		root := g.genMarkerObject("mk_"+f.Tag, "")
+		if len(twinRefs) > 0 {
+			// refer to the twins so that their names propagate into field types
+			props, _ := root.Get("properties")
+			po := props.(Obj)
+			for i, tr := range twinRefs {
+				po = append(po, KV{fmt.Sprintf("%stw%d", f.Tag, i), Obj{{"$ref", "#/$defs/" + tr}}})
+			}
+			root = root.Set("properties", po)
+		}
 		for _, kv := range root {
 			doc = append(doc, kv)
 		}
@@ -551,6 +624,29 @@ func (g *genCtx) genMarkerObject(marker, fromDef string) Obj {
 				required = append(required, ru.Prop)
 			}
 		}
+	}
+	// attributable combinator refs: allOf/anyOf [ {$ref}, {cb_ marker branch} ]
+	nc := 0
+	if (g.feat.AllOf || g.feat.AnyOf) && (g.feat.LocalRef || g.feat.FileRef) {
+		nc = rapid.IntRange(0, 2).Draw(g.t, "ncombos")
+	}
+	for i := 0; i < nc; i++ {
+		g.comboOnly = true
+		ru, ok := g.drawRef(fromDef)
+		g.comboOnly = false
+		if !ok {
+			continue
+		}
+		kws := []string{}
+		if g.feat.AllOf {
+			kws = append(kws, "allOf")
+		}
+		if g.feat.AnyOf {
+			kws = append(kws, "anyOf")
+		}
+		ru.Combo = rapid.SampledFrom(kws).Draw(g.t, "combokw")
+		props = append(props, KV{ru.Prop, g.comboSchema(ru.Combo, ru.Ref)})
+		g.f.Refs = append(g.f.Refs, ru)
 	}
 	if fromDef == "" {
 		props = g.forcedRefs(props)
@@ -599,7 +695,10 @@ func (g *genCtx) drawRef(fromDef string) (RefUse, bool) {
 		}
 	}
 	if g.feat.LocalRef {
-		for _, d := range f.Defs {
+		for i, d := range f.Defs {
+			if g.comboOnly && i <= g.curDef {
+				continue
+			}
 			if d != fromDef || g.feat.Recur {
 				ts = append(ts, target{f, d})
 			}
@@ -608,7 +707,7 @@ func (g *genCtx) drawRef(fromDef string) (RefUse, bool) {
 	if isSpecial(f) {
 		linked = true // shadow files only refer to themselves
 	}
-	if g.feat.FileRef && !linked {
+	if g.feat.FileRef && !linked && !(g.comboOnly && g.feat.Recur) {
 		for _, o := range g.w.Files {
 			if o == f || isSpecial(o) {
 				continue
@@ -705,6 +804,23 @@ func (g *genCtx) drawRef(fromDef string) (RefUse, bool) {
 	return ru, true
 }
 
+// comboSchema: {kw: [ {$ref}, {object with a cb_ marker property} ]}. The merged
+// struct carries the target's marker (copied fields) and the cb_ marker, which
+// tells it apart from the target's own declaration.
+func (g *genCtx) comboSchema(kw, ref string) Obj {
+	g.nprop++
+	cb := Obj{{"type", "object"}, {"properties", Obj{{fmt.Sprintf("cb_%s_%d", g.f.Tag, g.nprop), Obj{{"type", "string"}}}}}}
+	br := []any{Obj{{"$ref", ref}}, cb}
+	if g.pct("cbfirst", 30) {
+		br = []any{cb, Obj{{"$ref", ref}}}
+	}
+	o := Obj{}
+	if g.pct("combotype2", 40) {
+		o = append(o, KV{"type", "object"})
+	}
+	return append(o, KV{kw, br})
+}
+
 // mayRequire: a property that is a direct $ref is only made required in ReqCycle
 // worlds (references within a file may always be mutually recursive): a cycle of required references is a schema no
 // finite document satisfies, and the generator answers it with an invalid
@@ -730,17 +846,30 @@ func (g *genCtx) forcedRefs(props Obj) Obj {
 	if isSpecial(f) || !f.RootObj {
 		return props
 	}
-	add := func(ref, toTag, toDef, sp string) {
+	addC := func(ref, toTag, toDef, sp, kw string) {
 		g.nprop++
-		ru := RefUse{FromTag: f.Tag, Prop: fmt.Sprintf("%sr%d", f.Tag, g.nprop), Ref: ref, ToTag: toTag, ToDef: toDef, Spelling: sp}
-		props = append(props, KV{ru.Prop, Obj{{"$ref", ru.Ref}}})
+		ru := RefUse{FromTag: f.Tag, Prop: fmt.Sprintf("%sr%d", f.Tag, g.nprop), Ref: ref, ToTag: toTag, ToDef: toDef, Spelling: sp, Combo: kw}
+		if kw == "" {
+			props = append(props, KV{ru.Prop, Obj{{"$ref", ru.Ref}}})
+		} else {
+			props = append(props, KV{ru.Prop, g.comboSchema(kw, ru.Ref)})
+		}
 		f.Refs = append(f.Refs, ru)
 	}
+	add := func(ref, toTag, toDef, sp string) { addC(ref, toTag, toDef, sp, "") }
 	if g.feat.Shadow {
 		for i, d := range []string{"a", "b"} {
 			if f.Dir == d {
 				sp := rapid.SampledFrom([]string{"./common.json", "common.json", "file://common.json"}).Draw(g.t, "shadowsp")
-				add(fmt.Sprintf("%s#/$defs/S%dDa", sp, i), fmt.Sprintf("s%d", i), fmt.Sprintf("S%dDa", i), "shadow")
+				kw := ""
+				if g.pct("shadowcombo", 60) {
+					kw = rapid.SampledFrom([]string{"allOf", "anyOf"}).Draw(g.t, "shadowkw")
+				}
+				if g.pct("shadowroot", 60) {
+					addC(sp, fmt.Sprintf("s%d", i), "", "shadow", kw)
+				} else {
+					addC(fmt.Sprintf("%s#/$defs/S%dDa", sp, i), fmt.Sprintf("s%d", i), fmt.Sprintf("S%dDa", i), "shadow", kw)
+				}
 			}
 		}
 	}
@@ -757,6 +886,9 @@ func (g *genCtx) forcedRefs(props Obj) Obj {
 			to := "e0j"
 			if first == ".yaml" {
 				to = "e0y"
+			}
+			if g.w.File("e0n") != nil {
+				to = "e0n"
 			}
 			add(rel+"#/$defs/E0Da", to, "E0Da", "extshadow")
 		}
@@ -972,6 +1104,9 @@ func (g *genCtx) genObject() any {
 		if g.pct("nreq", 30) && g.mayRequire(pv) {
 			required = append(required, name)
 		}
+	}
+	if g.feat.Twins && g.pct("proptwins", 30) {
+		props = append(props, KV{"tw_" + g.f.Tag, Obj{{"type", "string"}}}, KV{"tw-" + g.f.Tag, Obj{{"type", "integer"}}})
 	}
 	o := Obj{{"type", "object"}}
 	if len(props) > 0 || g.pct("emptyprops", 50) {
